@@ -102,7 +102,14 @@ NpFails(r, net, par, opts, x, u, d) ==
                                 /\ (og.kind # "mainstream" /\ xc.rho[OLink(net, q)][1] = lk.rho_max) => RLe(RAbs(qf), slack)
                                 /\ RLe(RNeg(TolS(ScaleW(net, par, xc, u, d, q))), yo.w[q]) )}
                   ELSE {}
+           \* C12: stepping again from the same (caller-owned) values gives identical next states; nothing supplied was modified
+           rep == IF o.pure.has
+                  THEN {s \in StateSlots(net) : ~(RIsNaN(ObsY(net, o.y, s)) /\ RIsNaN(ObsY(net, o.pure.y2, s))) /\ ObsY(net, o.y, s) # ObsY(net, o.pure.y2, s)}
+                       \cup {s \in StateSlots(net) : ~(RIsNaN(ObsY(net, o.y, s)) /\ RIsNaN(ObsY(net, o.pure.y3, s))) /\ ObsY(net, o.y, s) # ObsY(net, o.pure.y3, s)}
+                  ELSE {}
        IN {<<"np.y", s>> : s \in mism}
+          \cup {<<"np.repeat", s>> : s \in rep}
+          \cup (IF o.pure.has THEN {<<"np.heap", o.pure.changed[k]>> : k \in DOMAIN o.pure.changed} ELSE {})
           \cup {<<"np.bounds", q>> : q \in bnd}
           \cup {<<"np.meta", s>> : s \in meta}
           \cup (IF pl.has /\ ~pl.ok THEN {<<"np.ok", pl.err>>} ELSE {})
@@ -259,11 +266,14 @@ SensFails(r, net, par) ==
 
 \* ---- neutral controls (C18): the case against its uncontrolled twin ------------------------------------------
 YOf(j) == [rho |-> [l \in DOMAIN j.rho |-> PSeq(j.rho[l])], v |-> [l \in DOMAIN j.v |-> PSeq(j.v[l])], w |-> [q \in DOMAIN j.w |-> P(j.w[q])]]
-TwinRel(net, expect, s, base, twin, tol, scale) ==
+TwinRel(net, u, expect, s, base, twin, tol, scale) ==
   \/ RIsNaN(base) /\ RIsNaN(twin)
-  \/ IF expect = "equal" \/ s[1] # "v" \/ ~(net.links[s[2]].ctl /\ s[3] \in net.links[s[2]].vsl)
-     THEN RClose(base, twin, tol, scale)
-     ELSE RLe(base, twin (+) (tol (.) Mx(One, Mx(RAbs(twin), scale))))
+  \/ LET limited == s[1] = "v" /\ net.links[s[2]].ctl /\ s[3] \in net.links[s[2]].vsl
+          \* a limited segment whose own limit is infinite behaves like a plain one
+          finite == limited /\ RIsFinite(u.vctrl[s[2]][VslIndex(net.links[s[2]], s[3])])
+     IN IF expect = "equal" \/ ~finite
+        THEN RClose(base, twin, tol, scale)
+        ELSE RLe(base, twin (+) (tol (.) Mx(One, Mx(RAbs(twin), scale))))
 TwinFails(r, net, par, opts, x, u, d) ==
   IF r.twin.expect = "none" \/ ~r.obs.twin.has THEN {}
   ELSE IF ~r.obs.twin.ok THEN {<<"twin.ok", r.obs.twin.err>>}
@@ -274,11 +284,11 @@ TwinFails(r, net, par, opts, x, u, d) ==
         yb == StepOpt(net, par, opts, x, u, d)
         yt == StepOpt(tnet, par, opts, x, tu, d)
         Val(y, s) == CASE s[1] = "rho" -> y.rho[s[2]][s[3]] [] s[1] = "v" -> y.v[s[2]][s[3]] [] s[1] = "w" -> y.w[s[2]]
-        model == {s \in StateSlots(net) : ~TwinRel(net, r.twin.expect, s, Val(yb, s), Val(yt, s), Zero, Zero)}
+        model == {s \in StateSlots(net) : ~TwinRel(net, u, r.twin.expect, s, Val(yb, s), Val(yt, s), Zero, Zero)}
         Pairs == {<<"np", r.obs.np.y, r.obs.twin.np>>} \cup {<<r.obs.twin.fn[k].sym, r.obs.twin.fn[k].base, r.obs.twin.fn[k].twin>> : k \in DOMAIN r.obs.twin.fn}
     IN {<<"model.twin", s>> : s \in model}
        \cup UNION {{<<"twin.y", pr[1], s>> : s \in {s \in StateSlots(net) :
-                       ~TwinRel(net, r.twin.expect, s, ObsY(net, pr[2], s), ObsY(net, pr[3], s), TolX, ScaleOf(net, par, xc, u, d, s))}} : pr \in Pairs}
+                       ~TwinRel(net, u, r.twin.expect, s, ObsY(net, pr[2], s), ObsY(net, pr[3], s), TolX, ScaleOf(net, par, xc, u, d, s))}} : pr \in Pairs}
 
 \* turn-rate scaling (C14): the record's network has the turn rates of every node scaled; base_beta are the originals
 ScaleFails(r, net, par, opts, x, u, d) ==
